@@ -1,1 +1,5 @@
 pub mod c01;
+pub mod c02;
+pub mod c17;
+pub mod c18;
+pub mod c19;
